@@ -100,6 +100,9 @@ def check_imports(n, fname, out, siblings):
             out.append("%s:%d: import from %s" % (fname, n.lineno, n.module))
         if n.level > 1 or (n.level == 1 and n.module is not None and n.module.split(".")[0] not in siblings):
             out.append("%s:%d: relative import of %s" % (fname, n.lineno, n.module))
+        for a in n.names:
+            if a.name == "*":
+                out.append("%s:%d: star import from %s" % (fname, n.lineno, n.module))
         if n.level >= 1:
             for a in n.names:
                 if a.asname is not None and a.asname != a.name:
@@ -137,6 +140,7 @@ def static_check(src, out, defs):
         names = set()
         seen = set()
         mod = fname[:-3]
+        check_annotations(tree, fname, out)
         for n in tree.body:
             if isinstance(n, ast.Expr) and isinstance(n.value, ast.Constant) and isinstance(n.value.value, str):
                 continue
@@ -288,6 +292,12 @@ def check_repr(fd, fname, cname, out):
         out.append("%s:%d: %s.__repr__ is more than one return statement" % (fname, fd.lineno, cname))
         return
     for x in ast.walk(body[0].value):
+        if isinstance(x, ast.BinOp) and not (isinstance(x.op, ast.Mod) and isinstance(x.left, ast.Constant) and isinstance(x.left.value, str)):
+            out.append("%s:%d: %s.__repr__ computes (only `\"<format>\" %% (...)` is allowed there)" % (fname, x.lineno, cname))
+            continue
+        if isinstance(x, ast.FormattedValue) and x.format_spec is not None:
+            out.append("%s:%d: %s.__repr__ uses a format specification" % (fname, x.lineno, cname))
+            continue
         if isinstance(x, (ast.Constant, ast.Name, ast.Attribute, ast.BinOp, ast.Tuple, ast.List, ast.JoinedStr, ast.FormattedValue,
                           ast.Load, ast.operator, ast.Mod, ast.Add)):
             if isinstance(x, ast.Name) and x.id not in ("self", "repr", "str", "list", "tuple", "len", "type"):
@@ -297,6 +307,36 @@ def check_repr(fd, fname, cname, out):
                 and not x.keywords:
             continue
         out.append("%s:%d: %s.__repr__ contains a %s (only reads are allowed there)" % (fname, getattr(x, "lineno", fd.lineno), cname, type(x).__name__))
+
+
+def inert_annotation(a):
+    """an annotation whose evaluation cannot do anything: names, attributes, subscripts, constants, tuples/lists, `|`"""
+    for x in ast.walk(a):
+        if not isinstance(x, (ast.Name, ast.Attribute, ast.Subscript, ast.Constant, ast.Tuple, ast.List, ast.BinOp, ast.BitOr,
+                              ast.Load, ast.expr_context)):
+            return False
+        if isinstance(x, ast.BinOp) and not isinstance(x.op, ast.BitOr):
+            return False
+    return True
+
+
+def check_annotations(tree, fname, out):
+    for x in ast.walk(tree):
+        anns = []
+        if isinstance(x, ast.AnnAssign):
+            anns.append(x.annotation)
+        if isinstance(x, (ast.FunctionDef, ast.AsyncFunctionDef)):
+            anns += [a.annotation for a in x.args.args + x.args.kwonlyargs + x.args.posonlyargs if a.annotation is not None]
+            anns += [a.annotation for a in (x.args.vararg, x.args.kwarg) if a is not None and a.annotation is not None]
+            if x.returns is not None:
+                anns.append(x.returns)
+            for d in x.args.defaults + [k for k in x.args.kw_defaults if k is not None]:
+                if not isinstance(d, (ast.Constant, ast.Name)):
+                    out.append("%s:%d: default value of a parameter of %s is not a constant or a name" % (fname, d.lineno, x.name))
+        for a in anns:
+            if not inert_annotation(a):
+                out.append("%s:%d: annotation `%s` is more than names, subscripts and `|` (it is evaluated when the module loads)"
+                           % (fname, a.lineno, ast.unparse(a)[:60]))
 
 
 def check_body(fd, fname, out):
